@@ -635,9 +635,12 @@ class QueryObjectDescriptor(CanBehaveLikeAVariable[T], ABC):
         if self._id_ in sources:
             self._is_false_ = self._id_expression_map_[self._id_]._is_false_
             yield sources
+        if self._child_:
+            # the condition belongs to this descriptor for this evaluation, also when the same condition object was
+            # mentioned again in an expression built later (which then is its primary parent).
+            self._child_._eval_parent_ = self
         self._inform_selected_variables_that_they_should_be_inferred_()
         if self._child_:
-            self._child_._eval_parent_ = self
             child_values = self._child_._evaluate__(sources, yield_when_false=self._yield_when_false_)
         else:
             child_values = [{}]
